@@ -19,20 +19,41 @@ pub fn run(ctx: &mut Ctx) {
     let cfg = GenCfg::standard();
     let n = ctx.n(500, 30_000);
     let cases = matcher_cases(prop, ctx, &cfg, n);
-    ctx.ev.rule = "each accepted generated ledger P × a generated continuation S (no CAPRETURN/ACCUMULATION; in half the cases with a SPLIT/UNSPLIT of a security that P holds, by preference one whose purchases P's capital events adjusted) shifted to start 31, 32 or more days after P's last transaction (exactly 31 in a third of the cases): the real calculate() on P ++ S must either reject with an error dated in S or list, for every disposal dated within P, the same legs, costs, proceeds and gain as calculate() on P. Correspondence: P ++ S vs the model. Non-trivial = P has a disposal in its last 30 days and S contains a purchase of the same security; distinct by ledger text.".into();
+    ctx.ev.rule = "each accepted generated ledger P (a long single-security history is cut at its 29th–33rd purchase, its remainder becoming S) × a generated continuation S (no CAPRETURN/ACCUMULATION; in half the cases with a SPLIT/UNSPLIT of a security that P holds, by preference one whose purchases P's capital events adjusted) shifted to start 31, 32 or more days after P's last transaction (exactly 31 in a third of the cases): the real calculate() on P ++ S must either reject with an error dated in S or list, for every disposal dated within P, the same legs, costs, proceeds and gain as calculate() on P. Correspondence: P ++ S vs the model. Non-trivial = P has a disposal in its last 30 days and S contains a purchase of the same security; distinct by ledger text.".into();
     let ex = run_impl::wide_exemptions();
     let mut r = Rng::new(ctx.seed ^ 0xC12);
     let mut scfg = cfg.clone();
     scfg.cost_events = false;
+    let mut cli_left: u32 = if ctx.tier == Tier::Quick { 8 } else { 80 };
     for (name, p) in cases {
         if !well_formed(&p) || p.is_empty() { continue; }
+        // a long single-security history is cut in two: the prefix ends at its 29th–33rd purchase, the rest
+        // (without its capital events) becomes the continuation — thresholds in the lot bookkeeping are then
+        // crossed by the appended lines, not inside the prefix
+        let mut forced: Option<Ledger> = None;
+        let p = if p.len() >= 40 && p.iter().all(|t| t.ticker == p[0].ticker) {
+            let mut sorted = p.clone();
+            sorted.sort_by_key(|t| t.date);
+            let m = 29 + r.below(5) as usize;
+            let cut = sorted.iter().enumerate().filter(|(_, t)| t.kind == Kind::Buy).nth(m - 1).map(|(i, _)| i);
+            match cut {
+                Some(c) if c + 1 < sorted.len() => {
+                    let cut_date = sorted[c].date;
+                    let (head, tail): (Ledger, Ledger) = sorted.into_iter().partition(|t| t.date <= cut_date);
+                    let tail: Ledger = tail.into_iter().filter(|t| !matches!(t.kind, Kind::CapReturn | Kind::Accumulation)).collect();
+                    if !tail.is_empty() { forced = Some(tail); }
+                    head
+                }
+                _ => p,
+            }
+        } else { p };
         ctx.ev.evaluations += 1;
         let base = run_impl::impl_calc(&p, None, &ex);
         let Ok(brep) = &base else { ctx.ev.count("prefix-rejected"); continue };
         ctx.ev.count("prefix-accepted");
         let last = p.iter().map(|t| t.date).max().expect("non-empty");
         // continuation on the same tickers, shifted after last + gap
-        let mut s = ledger::gen_ledger(&mut r, &scfg);
+        let mut s = match forced { Some(t) => { ctx.ev.count("long-history-cut"); t } None => ledger::gen_ledger(&mut r, &scfg) };
         if s.is_empty() { continue; }
         let first = s.iter().map(|t| t.date).min().expect("non-empty");
         let gap = match r.below(3) { 0 => 31, 1 => 32, _ => r.range(33, 400) };
@@ -51,6 +72,7 @@ pub fn run(ctx: &mut Ctx) {
         let mut whole = p.clone();
         whole.extend(s.iter().cloned());
         if r.chance(1, 3) { r.shuffle(&mut whole); }
+        if cli_left > 0 { cli_left -= 1; cli_crosscheck(ctx, prop, &whole, None); }
         let out = run_impl::impl_calc(&whole, None, &ex);
         let late_disposal = p.iter().any(|t| t.kind == Kind::Sell && (last - t.date).num_days() <= 30 && s.iter().any(|b| b.kind == Kind::Buy && b.ticker == t.ticker));
         if late_disposal { ctx.ev.nontrivial.insert(ledger::dsl(&whole)); }
